@@ -683,6 +683,24 @@ class FakeBlock:
         return RecView(self, roi)
 
 
+def _round_f32(v, is_int):
+    """binary32 rounding of a real: integers up to 2^24 are exact; otherwise a fresh value within
+    2^-24 relative distance (round to nearest; the sign is kept, zero stays zero)"""
+    if not isinstance(v, Sym):
+        return float(real_np.float32(v))
+    if is_int and bool(symx.And(v >= -(2**24), v <= 2**24)):
+        return v
+    c = symx.ctx()
+    c.fresh_n += 1
+    r = symx.Real(f"_f32_{c.fresh_n}")
+    eps = F(1, 2**24)
+    if bool(v >= 0):
+        symx.assume(symx.And(r >= v * (1 - eps), r <= v * (1 + eps)))
+    else:
+        symx.assume(symx.And(r <= v * (1 - eps), r >= v * (1 + eps)))
+    return r
+
+
 class NP:
     """Stands in for the ``numpy`` module object inside instrumented modules."""
 
@@ -762,11 +780,15 @@ class NP:
     @staticmethod
     def linspace(a, b, n, dtype=None):
         if isinstance(a, Sym) or isinstance(b, Sym):
-            # float32 rounding of boundary points is outside the claim (real model)
             a_, b_ = symx._s_float(a), symx._s_float(b)
-            if n == 1:
-                return SymArray([a_], "float64")
-            return SymArray([a_ + (b_ - a_) * F(i, n - 1) for i in range(n)], "float64")
+            vals = [a_] if n == 1 else [a_ + (b_ - a_) * F(i, n - 1) for i in range(n)]
+            if dtype is not None and real_np.dtype(dtype) == real_np.dtype("float32"):
+                # a 24-bit mantissa: the one place where the real model would hide a rounding
+                # that is as large as whole pixels (coordinates beyond 2^24)
+                ints = [isinstance(a, (int, symx.SymInt)) and isinstance(b, (int, symx.SymInt)) and i in (0, n - 1) for i in range(n)]
+                vals = [_round_f32(v, is_int) for v, is_int in zip(vals, ints)]
+                return SymArray(vals, "float32")
+            return SymArray(vals, "float64")
         return real_np.linspace(a, b, n, dtype=dtype)
 
     @staticmethod
